@@ -66,7 +66,7 @@ def main():
             cc += ' -pthread'
         if m.get('compile'):
             # the demonstration needs particular flags (e.g. a SIMD configuration): keep the compiler and -D/-m/-f flags
-            toks = [t for t in m['compile'].split() if t.startswith(('-D', '-m', '-f', '-O', '-pthread'))]
+            toks = [t for t in m['compile'].split('(')[0].split() if t.startswith(('-D', '-m', '-f', '-O', '-pthread'))]
             comp = 'clang++' if 'clang++' in m['compile'] else 'g++'
             cc = comp + ' -std=gnu++17 -I Include ' + ' '.join(toks)
         rc, out = sh('%s %s -o /tmp/seedeval_demo_with && /tmp/seedeval_demo_with' % (cc, demo), cwd=WT, timeout=900)
